@@ -440,7 +440,8 @@ XProgram(sd) ==
       k == IF c % 11 < 3 THEN " " \o XConstraint(Mix(sd, 5)) ELSE ""
   IN a \o p1 \o p2 \o rr \o k
 XSpecBody(sd) == Pick(sd, <<"q(X)", "q(X) and X > 0", "q(X) and not exists Y (q(Y) and Y < X)", "q(X) and X != n", "q(X) or X = 1",
-                            "exists N$i (X = N$i and q(X))", "q(X) and aux(X)", "q(X) and exists Y (Y = X + 1 and q(Y))">>)
+                            "exists N$i (X = N$i and q(X))", "q(X) and aux(X)", "q(X) and exists Y (Y = X + 1 and q(Y))",
+                            "q(X) and X > -n$i", "q(X) and exists N$i (N$i = -(n$i) and X > N$i)">>)
 \* arbitrary closed formulas over the public vocabulary (equivalences under either quantifier, nested quantifiers ...)
 XAtomF(sd) ==
   LET c == Val(sd) % 100
@@ -474,6 +475,7 @@ XUserGuide(sd) ==
   \o " input: n -> integer."
   \o (IF c % 5 = 0 THEN " assumption: forall X (q(X) -> " \o Pick(Nx(sd), <<"X > 0", "X != a", "X >= n", "exists N$i (N$i = X)">>) \o ")." ELSE "")
   \o (IF c % 7 = 0 THEN " assumption: n > 0." ELSE "")
+  \o (IF c % 11 = 0 THEN " assumption: forall X (q(X) -> X > -n$i)." ELSE "")
 ExtCase(n, sd) ==
   LET l == XProgram(Mix(sd, 11))
       c == Val(sd) % 100
@@ -561,7 +563,7 @@ IdentCase(n, sd) ==
        [] k = 3 -> [id |-> "id" \o ToString(n), task |-> "strong", left |-> P \o "(" \o P \o ") :- q(" \o Sa \o ", " \o Sb \o ").", right |-> P \o "(" \o P \o ") :- q(" \o Sa \o ", " \o Sb \o "), " \o Sa \o " < " \o Sb \o "."]
        [] k = 4 -> [id |-> "id" \o ToString(n), task |-> "external", left |-> P \o "(X) :- q(X), X != " \o Sa \o ", X > n.", right |-> P \o "(X) :- q(X), X > n, X != " \o Sa \o ", X != " \o Sb \o ".", ug |-> ug]
        [] k = 5 -> [id |-> "id" \o ToString(n), task |-> "external", left |-> P \o "(X) :- q(X), not " \o Sa \o ". " \o Sa \o " :- q(" \o Sa \o ").", right |-> P \o "(X) :- q(X), not q(" \o Sa \o ").", ug |-> ug]
-       [] k = 6 -> [id |-> "id" \o ToString(n), task |-> "external", spec |-> "spec: forall X (" \o P \o "(X) <-> q(X) and X != " \o Sa \o " and n < X).", right |-> P \o "(X) :- q(X), X != " \o Sa \o ", X > n.", ug |-> ug]
+       [] k = 6 -> [id |-> "id" \o ToString(n), task |-> "external", spec |-> "spec: forall X (" \o P \o "(X) <-> q(X) and X != " \o Sa \o " and " \o (IF n % 20 = 6 THEN "-n$i > -X" ELSE "n < X") \o ").", right |-> P \o "(X) :- q(X), X != " \o Sa \o ", X > n.", ug |-> ug]
        [] k = 7 -> [id |-> "id" \o ToString(n), task |-> "external", left |-> P \o "(X) :- q(X), " \o Sa \o "(X). " \o Sa \o "(X) :- q(X), X != " \o Sa \o ".", right |-> P \o "(X) :- q(X), X != " \o Sa \o ".", ug |-> ug]
        [] k = 8 -> [id |-> "id" \o ToString(n), task |-> "strong", left |-> "p(" \o Sa \o "). p(" \o Sb \o "). " \o P \o ".", right |-> "p(" \o Sb \o "). p(" \o Sa \o "). " \o P \o " :- not not " \o P \o "."]
        [] k = 9 -> [id |-> "id" \o ToString(n), task |-> "external", left |-> P \o "(X) :- q(X), X = " \o Sa \o ".", right |-> P \o "(" \o Sa \o ") :- q(" \o Sa \o ").", ug |-> ug \o " input: " \o Sb \o "."]
